@@ -25,6 +25,40 @@ pub enum QOp {
     ConsumeBig(u8),
     /// `Read::read_to_end` (whatever it returns must be the next pending bytes, in order)
     ReadToEnd,
+    /// one gathered write of the slices [2 bytes, empty, 1 byte] through `Write::write_vectored`, called again with
+    /// what it did not take
+    WriteVectored,
+}
+
+/// the slices of `QOp::WriteVectored` for the current counter value
+fn vectored_slices(counter: u8) -> [Vec<u8>; 3] {
+    [vec![counter, counter.wrapping_add(1)], vec![], vec![counter.wrapping_add(2)]]
+}
+
+/// `write_vectored` until everything is taken; Err(text) when it lies about its progress
+fn write_vectored_all(queue: &mut IOQueue, slices: &[Vec<u8>]) -> Result<(), String> {
+    let mut rest: Vec<&[u8]> = slices.iter().map(|v| &v[..]).collect();
+    let mut guard = 0;
+    while rest.iter().any(|p| !p.is_empty()) {
+        guard += 1;
+        if guard > 16 {
+            return Err("write_vectored makes no progress".into());
+        }
+        let io: Vec<std::io::IoSlice<'_>> = rest.iter().map(|p| std::io::IoSlice::new(p)).collect();
+        let mut n = queue.write_vectored(&io).map_err(|e| format!("write_vectored failed: {e}"))?;
+        if n == 0 {
+            return Err("write_vectored returned 0 for non-empty input".into());
+        }
+        for p in rest.iter_mut() {
+            let take = n.min(p.len());
+            *p = &p[take..];
+            n -= take;
+        }
+        if n > 0 {
+            return Err("write_vectored reports more bytes than it was given".into());
+        }
+    }
+    Ok(())
 }
 
 pub const BIG: [usize; 5] = [65536, 70001, 1_048_577, 2_200_000, 3_300_000];
@@ -92,6 +126,7 @@ pub fn all_ops() -> Vec<QOp> {
     v.push(QOp::FillBuf);
     v.push(QOp::ClearButLast);
     v.push(QOp::ReadToEnd);
+    v.push(QOp::WriteVectored);
     v
 }
 
@@ -139,6 +174,11 @@ fn apply_real(queue: &mut IOQueue, counter: &mut u8, op: &QOp) {
         QOp::ReadToEnd => {
             let mut v = vec![];
             let _ = queue.read_to_end(&mut v);
+        }
+        QOp::WriteVectored => {
+            let slices = vectored_slices(*counter);
+            *counter = counter.wrapping_add(3);
+            let _ = write_vectored_all(queue, &slices);
         }
         QOp::Flush => {
             let _ = queue.flush();
@@ -214,6 +254,16 @@ pub fn step(hist: &[QOp]) -> (Option<u128>, Vec<(String, String)>) {
                         },
                     }
                     r.model.consume(m);
+                }
+            }
+            QOp::WriteVectored => {
+                let slices = vectored_slices(r.counter);
+                r.counter = r.counter.wrapping_add(3);
+                if let Err(e) = write_vectored_all(&mut r.queue, &slices) {
+                    local.push(("write_vectored-result".into(), e));
+                }
+                for sl in &slices {
+                    r.model.write(sl);
                 }
             }
             QOp::ReadToEnd => {
